@@ -174,6 +174,9 @@ func (e *Event) Fields(fields interface{}) *Event {
 // Use zerolog.Dict() to create the dictionary.
 func (e *Event) Dict(key string, dict *Event) *Event {
 	if e == nil {
+		if dict != nil {
+			putEvent(dict)
+		}
 		return e
 	}
 	dict.buf = enc.AppendEndMarker(dict.buf)
@@ -194,6 +197,9 @@ func Dict() *Event {
 // implement the LogArrayMarshaler interface.
 func (e *Event) Array(key string, arr LogArrayMarshaler) *Event {
 	if e == nil {
+		if a, ok := arr.(*Array); ok && a != nil {
+			putArray(a)
+		}
 		return e
 	}
 	e.buf = enc.AppendKey(e.buf, key)
